@@ -17,7 +17,7 @@ ASSUMPTIONS = ["RefMDP interpreter (vlib/mdp.py) is the semantics of the harness
 
 
 def units(tier):
-    return [{"name": n, "timeout": 2400} for n in ("discrete", "masked", "box", "box_rescaled", "multibinary", "stateful",
+    return [{"name": n, "timeout": 2400} for n in ("discrete", "masked", "box", "box_rescaled", "box_halfbounded", "multibinary", "stateful",
                                                      "multidiscrete", "iteration")]
 
 
@@ -342,7 +342,72 @@ def _run_kind(ctx, kind, masks=False, stub=False, via_iteration=False, n=None, r
                            pol, E, i, info, via_iteration=via_iteration)
 
 
+def u_box_halfbounded(ctx):
+    """Box action spaces with half-bounded dimensions (low=0, high=inf and the reverse): the environment is driven, and
+    its reward computed, with the action clipped to the finite bound of every dimension; the rollout keeps the action
+    the policy chose. No time limit, so stored rewards carry no bootstrap term."""
+    import equinox as eqx
+    import jax
+    import jax.numpy as jnp
+    from jax import random as jr
+    from lerax.algorithm import A2C, PPO
+    from lerax.policy import MLPActorCriticPolicy
+    from lerax.space import Box
+    from vlib.mdp import FiniteMDP, RefMDP, random_tables
+
+    for i in range(ctx.n(4, 20)):
+        nS, nA = int(ctx.rng.integers(3, 7)), int(ctx.rng.integers(2, 5))
+        tabs = random_tables(ctx.rng, nS, nA, p_term=float(ctx.rng.choice([0.0, 0.2])), p_trunc=0.0, n_starts=2)
+        low, high = -1.0, 1.0
+        lo_v = np.array([low, 0.0, -np.inf], np.float32)
+        hi_v = np.array([high, np.inf, 2.0], np.float32)
+        base = FiniteMDP(tabs["P"], tabs["R"], tabs["term"], tabs["starts"], kind="box", box_dim=3, low=low, high=high)
+        env = eqx.tree_at(lambda e: e.action_space, base, Box(jnp.asarray(lo_v), jnp.asarray(hi_v)))
+        ref = RefMDP(tabs["P"], tabs["R"], tabs["term"], tabs["starts"], kind="box", low=low, high=high)
+        pol = MLPActorCriticPolicy(env, key=ctx.key(i), feature_size=4, feature_width=8, value_width=8, action_width=8, log_std_init=0.7)
+        E, T = int(ctx.rng.integers(1, 3)), int(ctx.rng.integers(6, 17))
+        algo = [PPO(num_envs=E, num_steps=T, num_batches=1, num_epochs=1), A2C(num_envs=E, num_steps=T)][i % 2]
+        cb = algo.consolidate_callbacks(None)
+        st = algo.reset(env, pol, key=ctx.key(100 + i), callback=cb)
+        if E == 1:
+            _, buf = eqx.filter_jit(algo.collect_rollout)(env, pol, st.step_state, cb, ctx.key(200 + i))
+            buf = jax.tree.map(lambda x: x[None] if hasattr(x, "shape") else x, buf)
+        else:
+            _, buf = eqx.filter_jit(eqx.filter_vmap(algo.collect_rollout, in_axes=(None, None, eqx.if_array(0), None, 0)))(
+                env, pol, st.step_state, cb, jr.split(ctx.key(200 + i), E))
+        obs, acts, rew, done = (np.asarray(x) for x in (buf.observations, buf.actions, buf.rewards, buf.dones))
+        n_half = 0
+        for e in range(E):
+            for t in range(T):
+                s = int(np.argmax(obs[e, t]))
+                a = acts[e, t].astype(np.float32)
+                a_exec = np.clip(a, lo_v, hi_v)
+                beyond_half = bool(a[1] < 0.0 or a[2] > 2.0)
+                n_half += int(beyond_half)
+                want_r = float(ref.R[s, ref.a_index(a_exec)]) + ref.lin * float(np.sum(a_exec.astype(np.float64)))
+                ctx.monitor("halfbounded_steps_replayed")
+                if beyond_half:
+                    ctx.monitor("samples_beyond_the_finite_bound_of_a_half_bounded_dimension")
+                if abs(float(rew[e, t]) - want_r) > 2e-5 + 1e-4 * abs(want_r):
+                    raw_r = float(ref.R[s, ref.a_index(a_exec)]) + ref.lin * float(np.sum(a.astype(np.float64)))
+                    partial = np.where(np.isfinite(lo_v) & np.isfinite(hi_v), a_exec, a)
+                    part_r = float(ref.R[s, ref.a_index(a_exec)]) + ref.lin * float(np.sum(partial.astype(np.float64)))
+                    key = "stored-reward-mismatch"
+                    if abs(float(rew[e, t]) - part_r) <= 2e-5 + 1e-4 * abs(part_r):
+                        key = "half-bounded-action-dimension-not-clipped"
+                    elif abs(float(rew[e, t]) - raw_r) <= 2e-5 + 1e-4 * abs(raw_r):
+                        key = "reward-computed-with-unclipped-action"
+                    ctx.violation(key, {"got": float(rew[e, t]), "want": want_r, "action": a, "executed": a_exec, "low": lo_v, "high": hi_v,
+                                        "algo": type(algo).__name__, "E": E, "T": T, "i": i, "step": t, "env": e})
+                    break
+        ctx.case({"algo": type(algo).__name__, "E": E, "T": T, "i": i, "beyond_half_bounds": n_half}, nontrivial=n_half > 0,
+                 cls="box-halfbounded")
+    ctx.require("samples_beyond_the_finite_bound_of_a_half_bounded_dimension", 10)
+
+
 def run_unit(name, ctx):
+    if name == "box_halfbounded":
+        return u_box_halfbounded(ctx)
     if name == "discrete":
         _run_kind(ctx, "discrete")
     elif name == "masked":
